@@ -1,2 +1,81 @@
-(* Properties_C13.v — placeholder until GridProofs.v is complete *)
-From OmplV Require Import GridModel.
+(* Properties_C13.v — property C13: grid discretizations track cells, neighbours, borders and components exactly.
+   Statements only, over GridModel.v. *)
+From Coq Require Import List ZArith Bool Arith Permutation.
+From OmplV Require Import HeapModel GridModel GridProofs GridComps.
+Import ListNotations.
+Local Open Scope Z_scope.
+
+(* lookups find exactly the cells present *)
+Theorem C13_lookup_exact : forall c cells, has c cells = true <-> In c (coords cells).
+Proof. exact has_spec. Qed.
+
+(* the neighbour relation consists of exactly the present cells whose coordinates differ by one in a single dimension *)
+Theorem C13_neighbors_exact :
+  forall cells c x, NoDup (coords cells) ->
+    (In x (neighbors c cells) <-> In x cells /\ adjacent c (ccoord x)).
+Proof. exact neighbors_exact. Qed.
+Theorem C13_adjacent_means_differ_by_one :
+  forall a b, adjacent a b <->
+    length b = length a /\ exists i, (i < length a)%nat /\ (nth i b 0 = nth i a 0 + 1 \/ nth i b 0 = nth i a 0 - 1) /\
+                                     forall j, j <> i -> nth j b 0 = nth j a 0.
+Proof. exact adjacent_differ_by_one. Qed.
+(* ... and is symmetric *)
+Theorem C13_neighbors_symmetric :
+  forall cells x y, NoDup (coords cells) -> In x cells -> In y cells ->
+    (In y (neighbors (ccoord x) cells) <-> In x (neighbors (ccoord y) cells)).
+Proof. exact neighbors_symmetric. Qed.
+
+(* the reported connected components are total, partition the cells, and each block is closed under the
+   neighbour relation and connected *)
+Theorem C13_components_partition :
+  forall cells d, NoDup (coords cells) -> (forall x, In x cells -> length (ccoord x) = d) ->
+    exists comps, components cells = Some comps /\ Permutation (concat comps) cells /\
+      (forall comp, In comp comps -> comp <> [] /\ closed cells comp /\ connected cells comp).
+Proof. exact components_partition. Qed.
+
+(* GridN: after createCell+add of an absent coordinate / remove of a present cell, every cell's neighbour count equals
+   its number of present neighbours plus its boundary dimensions, and border <-> count < interior limit *)
+Theorem C13_gridn_add_exact :
+  forall p id c d cells cells', NInv p cells -> gridn_add p id c d cells = Some cells' ->
+    NInv p cells' /\ coords cells' = coords cells ++ [c].
+Proof. exact gridn_add_inv. Qed.
+Theorem C13_gridn_remove_exact :
+  forall p c cells cells', NInv p cells -> gridn_remove p c cells = Some cells' ->
+    NInv p cells' /\ coords cells' = without c (coords cells) /\ In c (coords cells).
+Proof. exact gridn_remove_inv. Qed.
+
+(* lifted to every history of additions and removals from the empty grid *)
+Inductive gop := GAdd (id : nat) (c : coord) (d : Z) | GRemove (c : coord).
+Fixpoint grun (p : gparams) (cells : list cell) (ops : list gop) : option (list cell) :=
+  match ops with
+  | [] => Some cells
+  | GAdd id c d :: t => match gridn_add p id c d cells with Some cs => grun p cs t | None => None end
+  | GRemove c :: t => match gridn_remove p c cells with Some cs => grun p cs t | None => None end
+  end.
+Theorem C13_gridn_counts_exact_for_every_history :
+  forall p ops cells, grun p [] ops = Some cells -> NInv p cells.
+Proof.
+  intros p ops. assert (G : forall cells0 cells, NInv p cells0 -> grun p cells0 ops = Some cells -> NInv p cells).
+  { induction ops as [|o t IH]; intros cells0 cells I R; cbn [grun] in R; [injection R as <-; exact I|].
+    destruct o as [id c d|c].
+    - destruct (gridn_add p id c d cells0) as [cs|] eqn:E; [|discriminate]. apply (IH cs cells); [|exact R]. apply (gridn_add_inv p id c d cells0 cs I E).
+    - destruct (gridn_remove p c cells0) as [cs|] eqn:E; [|discriminate]. apply (IH cs cells); [|exact R]. apply (gridn_remove_inv p c cells0 cs I E). }
+  intros cells. apply G. apply ninv_nil.
+Qed.
+
+Print Assumptions C13_lookup_exact.
+Print Assumptions C13_neighbors_exact.
+Print Assumptions C13_adjacent_means_differ_by_one.
+Print Assumptions C13_neighbors_symmetric.
+Print Assumptions C13_components_partition.
+Print Assumptions C13_gridn_add_exact.
+Print Assumptions C13_gridn_remove_exact.
+Print Assumptions C13_gridn_counts_exact_for_every_history.
+
+(* non-vacuity: a 2-D grid with bounds where a border/interior flip and a removal happen *)
+Example C13_nonvacuous :
+  let p := mkGP 2 (Some ([0;0], [2;2])) 2 in
+  option_map (map (fun x => (cid x, nbrs x, border x)))
+    (grun p [] [GAdd 0 [0;0] 5; GAdd 1 [1;0] 3; GAdd 2 [1;1] 7; GRemove [0;0]; GAdd 3 [2;1] 1])
+  = Some [(1%nat, 2, false); (2%nat, 2, false); (3%nat, 2, false)].
+Proof. vm_compute. reflexivity. Qed.
